@@ -13,7 +13,7 @@ namespace BW.Model.Hooks
 /-- Token kinds the WHERE-clause hooks distinguish. -/
 inductive HK
   | binding | node | predicate | predicateBound | literal | as_ | type_ | id_ | at_ | optional | lbracket | rbracket
-  | other
+  | asc | desc | other
   deriving DecidableEq, Repr
 
 structure BoundP where
@@ -132,12 +132,43 @@ def objStep (c : Clause) (last : Option HK) (tk : HTk) : Option (Clause × Optio
     | some _ => none
   | k => some (c, some k)
 
+/-! ### ORDER BY -/
+
+/-- `orderByBindings`: a binding appends a key (ascending), ASC / DESC set the direction of the last key. -/
+def setLast (cfg : List (Bytes × Bool)) (d : Bool) : List (Bytes × Bool) :=
+  match cfg.reverse with
+  | [] => cfg
+  | (b, _) :: rest => rest.reverse ++ [(b, d)]
+
+def orderStep (cfg : List (Bytes × Bool)) (tk : HTk) : List (Bytes × Bool) :=
+  match tk.k with
+  | .binding => cfg ++ [(tk.text, false)]
+  | .asc => setLast cfg false
+  | .desc => setLast cfg true
+  | _ => cfg
+
+/-- `orderByBindingsChecker`, the part that rewrites: a key listed twice with two directions is an error;
+    otherwise the first occurrence of each key is kept, in the order written. -/
+def consistent : List (Bytes × Bool) → List (Bytes × Bool) → Bool
+  | _, [] => true
+  | seen, (b, d) :: rest =>
+    match seen.find? (·.1 == b) with
+    | some (_, d') => d' == d && consistent seen rest
+    | none => consistent (seen ++ [(b, d)]) rest
+
+def dedupCfg : List (Bytes × Bool) → List (Bytes × Bool) → List (Bytes × Bool)
+  | acc, [] => acc
+  | acc, (b, d) :: rest => if acc.any (·.1 == b) then dedupCfg acc rest else dedupCfg (acc ++ [(b, d)]) rest
+
+def orderCheck (cfg : List (Bytes × Bool)) : Option (List (Bytes × Bool)) :=
+  if consistent [] cfg then some (dedupCfg [] cfg) else none
+
 /-- Which hook a grammar symbol's tokens go to. -/
-inductive Part | subj | pred | obj | none
+inductive Part | subj | pred | obj | order | none
   deriving DecidableEq, Repr
 
 /-- What a clause hook of the grammar does to the pattern under construction. -/
-inductive CHook | next | init | none
+inductive CHook | next | init | orderCheck | none
   deriving DecidableEq, Repr
 
 /-- What the parser hands to the hooks, for the WHERE part of a statement. -/
@@ -145,6 +176,7 @@ inductive HEv where
   | tok (part : Part) (tk : HTk)
   | next            -- `WhereNextWorkingClauseHook` (start and end of FIRST_CLAUSE / CLAUSES / MORE_CLAUSES)
   | init            -- `WhereInitWorkingClauseHook` (start of WHERE)
+  | orderCheck      -- `OrderByBindingsChecker` (end of ORDER_BY)
 
 /-- The statement under construction, as far as the WHERE hooks see it, and the three closures. -/
 structure WState where
@@ -154,6 +186,7 @@ structure WState where
   hs : HState := {}
   hp : HState := {}
   ho : HState := {}
+  order : List (Bytes × Bool) := []
 
 def emptyClause : Clause := {}
 
@@ -169,6 +202,8 @@ def wstep (w : WState) : HEv → Option WState
   | .init => some { w with working := {} }
   | .next => some { w with pattern := if clauseIsEmpty w.working then w.pattern else w.pattern ++ [w.working], working := {} }
   | .tok .none _ => some w
+  | .tok .order tk => some { w with order := orderStep w.order tk }
+  | .orderCheck => (orderCheck w.order).map fun o => { w with order := o }
   | .tok .subj tk =>
     let h := w.hs.enter w.stmt
     (subjStep w.working h.last tk).map fun (c, l) => { w with working := c, hs := { h with last := l } }
